@@ -61,6 +61,9 @@ type c03WalletCfg struct {
 	InValue     int64 // value of each funding input
 	Layout      []c03OutSpec
 	DropRequest bool // wallet ignores the requested output (misbehaving wallet)
+	// LND only: the first funding input is a nested (P2SH-P2WPKH) output, so that finalizing the PSBT adds a
+	// scriptSig and the id of the final transaction differs from the id of the unsigned one
+	NestedInput bool
 }
 
 // c03WalletObs is what the fake wallet saw.
@@ -383,6 +386,9 @@ func (f *c03LndWalletKit) FinalizePsbt(ctx context.Context, in *walletrpc.Finali
 		return nil, err
 	}
 	s := c03Signed(p.UnsignedTx)
+	if w.cfg.NestedInput && len(s.TxIn) > 0 {
+		s.TxIn[0].SignatureScript = append([]byte{0x16, 0x00, 0x14}, bytes.Repeat([]byte{0x5a}, 20)...)
+	}
 	for i := range p.Inputs {
 		var wb bytes.Buffer
 		psbtWriteWitness(&wb, s.TxIn[i].Witness)
